@@ -494,7 +494,7 @@ impl Engine for NetEngine {
                     }
                     // a tick may rotate the registration round: arrival relative to it matters by
                     // design, so a group never spans one
-                    Event::Epoch { .. } | Event::Restart | Event::Genesis | Event::Tick | Event::SyncView => flush(&mut group, &mut paired),
+                    Event::Epoch { .. } | Event::Restart | Event::Reconfigure { .. } | Event::Genesis | Event::Tick | Event::SyncView => flush(&mut group, &mut paired),
                     _ => {}
                 }
             }
